@@ -225,10 +225,20 @@ Example C15_byc_tie_key_met :
     [(1%positive, [(1%positive, 1%Q); (2%positive, 1%Q); (3%positive, 1%Q)]);
      (2%positive, [(1%positive, 1%Q); (2%positive, 1%Q); (3%positive, 1%Q)])] 2 [] = BC_ok 0.
 Proof. vm_compute. reflexivity. Qed.
-Theorem C15_byc_tie_out_of_fuel_partial :
-  lobc_calculate d_hondt (App_dict [(1%positive, 1); (2%positive, 1)]) (Ov_given d_hondt) 400
-    [(1%positive, [(1%positive, 1%Q); (2%positive, 1%Q)]); (2%positive, [(1%positive, 1%Q); (2%positive, 1%Q)])] 2 [] = BC_fuel.
-Proof. vm_compute. reflexivity. Qed.
+(* "the loop always ends" is FALSE of the code: on this input the model is out of fuel for EVERY fuel, i.e. the Python
+   loop has no end (replayed on the implementation: corpus/C15/byc-tie-no-end.json, cut after 400 rounds) *)
+Definition C15_byc_terminates_full_statement : Prop :=
+  forall dc a o votes n prev, exists fuel, lobc_calculate dc a o fuel votes n prev <> BC_fuel.
+Theorem C15_byc_terminates_refuted : ~ C15_byc_terminates_full_statement.
+Proof.
+  intros H.
+  destruct (H d_hondt (App_dict [(1%positive, 1); (2%positive, 1)]) (Ov_given d_hondt)
+              [(1%positive, [(1%positive, 1%Q); (2%positive, 1%Q)]); (2%positive, [(1%positive, 1%Q); (2%positive, 1%Q)])] 2 [])
+    as (fuel & Hf).
+  apply Hf. apply lobc_tie_diverges.
+Qed.
+(* what holds instead: C15_byc_fuel / C15_byc_ha_fuel (out of fuel = every examined size fails; otherwise the answer
+   does not depend on the fuel), and every other theorem excludes out-of-fuel by its hypothesis "= BC_ok r" *)
 
 Print Assumptions C15_allow.
 Print Assumptions C15_level_minimal.
@@ -250,4 +260,4 @@ Print Assumptions C15_byc_adjusted.
 Print Assumptions C15_byc_allocator_keeps_direct.
 Print Assumptions C15_byc_witness.
 Print Assumptions C15_byc_tie_key_met.
-Print Assumptions C15_byc_tie_out_of_fuel_partial.
+Print Assumptions C15_byc_terminates_refuted.
